@@ -83,6 +83,11 @@ type CaseOpts struct {
 	ForceMode string // "" = draw
 	// ContractPct is the percentage of transactions addressed to a generated contract (default 55)
 	ContractPct int
+	// NoSuicideTx: never generate the "Suicide"+beneficiary data branch of TransitionDb (it burns
+	// the sender's gas refund by design, which is not a conversion)
+	NoSuicideTx bool
+	// PreferRegime: when set, three cases in four draw the fork regime among those it accepts
+	PreferRegime func(ptn uint64) bool
 	// ForcePostFork / ForcePreFork restrict the regime (used by regression tests)
 }
 
@@ -148,6 +153,17 @@ func completeAccessList() types.AccessList {
 func GenCase(t *rapid.T, opts CaseOpts) *Case {
 	u := U()
 	c := &Case{Env: GenEnv(t)}
+	if opts.PreferRegime != nil && rapid.IntRange(0, 3).Draw(t, "preferregime") > 0 {
+		var ok []uint64
+		for _, r := range Regimes {
+			if opts.PreferRegime(r) {
+				ok = append(ok, r)
+			}
+		}
+		if len(ok) > 0 {
+			c.Env.PrimeTerminusNumber = ok[rapid.IntRange(0, len(ok)-1).Draw(t, "regime2")]
+		}
+	}
 	env := c.Env
 	// price
 	priceClass := rapid.IntRange(0, 28).Draw(t, "priceclass")
@@ -322,7 +338,7 @@ func GenCase(t *rapid.T, opts CaseOpts) *Case {
 		in, class, _ := g.lockupInput(h)
 		tx.Data, tx.DataNote = in, "lockup "+class
 	case "self":
-		if rapid.IntRange(0, 3).Draw(t, "suicidebranch") > 0 {
+		if !opts.NoSuicideTx && rapid.IntRange(0, 3).Draw(t, "suicidebranch") > 0 {
 			ben := g.callTarget("suicideben", &Hints{Self: fromAddr})
 			tx.Data = append([]byte("Suicide"), ben.addr.Bytes()...)
 			tx.DataNote = "Suicide>" + ben.name
